@@ -41,7 +41,7 @@ pub fn report(case: &Case, o: Oracles) -> CaseReport {
     CaseReport { fail: out.result.err(), nontrivial, classes, excluded: s.excluded, evaluations: 1, nontrivial_items: vec![], trace: out.trace }
 }
 
-fn strategy(tier: Tier) -> BoxedStrategy<Case> {
+pub fn strategy(tier: Tier) -> BoxedStrategy<Case> {
     let mut p = Profile::c01();
     if tier == Tier::Thorough {
         p.max_ops = 160;
